@@ -178,12 +178,15 @@ package bfe_http2
 //@   ensures[consumed_octets_returned_to_the_connection_window] sc.inflow.n == old(sc.inflow.n) + n
 
 //@ func (*serverConn).processData
-//@   props C33
+//@   props C33,C35
+//@   nopanic panic
+//@   requires[streams_are_live_and_open_ones_have_a_body] forall id uint32 :: has(sc.streams, id) ==> sc.streams[id].sc != nil && (sc.streams[id].state == stateOpen ==> sc.streams[id].body != nil)
 //@   requires sc != nil && f != nil && f.Length <= 16777215 && len(f.data) <= int(f.Length)
 //@   requires sc.inflow.conn == nil
 //@   requires forall id uint32 :: has(sc.streams, id) ==> sc.streams[id] != nil && sc.streams[id].inflow.conn == embed(sc, "inflow") && embed(sc.streams[id], "inflow") != embed(sc, "inflow")
 //@   frame Check pure
-//@   frame Write keeps any flow.n
+//@   frame Write keeps any flow.n, any stream.body, any stream.sc
+//@   frame sendWindowUpdate keeps any stream.body, any stream.sc
 //@   frame CloseWithError keeps any flow.n
 //@   frame endStream keeps any flow.n
 //@   note writing to / closing the request-body pipe and ending the stream are assumed not to touch any flow-control window
@@ -437,3 +440,77 @@ package bfe_http2
 //@   assume[a_body_read_notice_names_a_stream_of_this_connection] at "sc.noteBodyRead(m.st, m.n)" :: m.st != nil && m.st.inflow.conn == embed(sc, "inflow") && 0 <= m.n && m.n < 2147483647
 //@   assume[the_iteration_counter_does_not_wrap] at "loopNum++" :: 0 <= loopNum && loopNum < 4611686018427387904
 //@   loop 1 invariant[beyond_the_limit_the_connection_is_closed_before_another_event_is_served] loopNum == 0 || sc.queuedControlFrames <= maxQueuedControlFrames
+
+// ---- C35: stream rules; no internal panic on any sequence of client frames ----
+
+// a stream that can still receive a body has a body pipe
+//@ spec wfStream(st *stream) bool := st.sc != nil && (st.state == stateOpen || st.state == stateHalfClosedLocal || st.state == stateHalfClosedRemote) && (st.state != stateHalfClosedRemote ==> st.body != nil)
+//@ spec wfStreams(sc *serverConn) bool := forall id uint32 :: has(sc.streams, id) ==> sc.streams[id] != nil && wfStream(sc.streams[id])
+
+//@ func (*stream).endStream
+//@   props C35
+//@   nopanic nil
+//@   requires st != nil && st.sc != nil
+//@   requires[only_a_stream_with_an_open_body_can_end_it] st.body != nil
+//@   frame Check pure
+//@   frame Stop pure
+//@   modifies *
+//@   ensures[the_client_side_is_closed] st.state == stateHalfClosedRemote
+
+//@ func (*stream).processTrailerHeaders
+//@   props C35
+//@   requires st != nil && f != nil && wfStream(st)
+//@   requires[trailers_only_for_a_stream_whose_request_has_not_ended] st.state != stateHalfClosedRemote
+//@   frame Check pure
+//@   frame * keeps st.body, st.state, st.sc
+//@   modifies *
+//@   loop 1 invariant[copying_trailer_fields_leaves_the_stream_as_it_was] st.sc == old(st.sc) && st.body == old(st.body) && st.state == old(st.state)
+
+//@ func (*serverConn).state
+//@   props C35
+//@   requires sc != nil && wfStreams(sc)
+//@   frame Check pure
+//@   modifies nothing
+//@   ensures[a_known_stream_reports_itself] has(sc.streams, streamID) ==> result1 == sc.streams[streamID] && result0 == sc.streams[streamID].state
+//@   ensures[an_unknown_stream_is_closed_or_idle_by_its_id] !has(sc.streams, streamID) ==> result1 == nil && result0 == (streamID <= sc.maxStreamID ? stateClosed : stateIdle)
+
+//@ func (*serverConn).closeStream
+//@   props C35
+//@   nopanic panic
+//@   requires sc != nil && st != nil
+//@   requires[only_a_live_stream_is_closed] st.state != stateIdle && st.state != stateClosed
+//@   frame Check pure
+//@   assume[the_scheduler_holds_no_nil_queue] at "sc.writeSched.forgetStream(st.id)" :: forall k uint32 :: has(sc.writeSched.sq, k) ==> sc.writeSched.sq[k] != nil
+//@   modifies *
+
+//@ func (*serverConn).processResetStream
+//@   props C35
+//@   nopanic panic
+//@   requires sc != nil && f != nil && wfStreams(sc)
+//@   frame Check pure
+//@   modifies *
+//@   ensures[a_reset_for_an_idle_stream_is_a_connection_error] !old(has(sc.streams, f.StreamID)) && old(f.StreamID) > old(sc.maxStreamID) ==> result0 != nil
+
+//@ func (*serverConn).resetStream
+//@   props C35
+//@   nopanic panic
+//@   requires sc != nil && wfStreams(sc)
+//@   frame Check pure
+//@   frame writeFrame keeps sc.streams, sc.streams[..], any stream.state, any stream.sc, any stream.body
+//@   assume[the_connection_state_is_consistent_when_the_frame_is_queued] at "sc.writeFrame(frameWriteMsg{write: se})" :: inv37(sc) && wfPool(embed(sc, "writeSched"))
+//@   note queuing the RST_STREAM frame is assumed not to change the stream table nor the streams' states
+//@   modifies *
+
+//@ func (*serverConn).processHeaders
+//@   props C35
+//@   requires sc != nil && f != nil && wfStreams(sc)
+//@   frame Check pure
+//@   frame * keeps sc.maxStreamID, sc.streams, sc.streams[..], any stream.state, any stream.body, any stream.sc, sc.curOpenStreams, sc.advMaxStreams, f.HeadersFrame
+//@   note the helpers called on the way (rate check, go-away, priority adjustment, connection-state hook, building the request) are assumed not to change the stream table, the streams' state/body or the stream counters
+//@   modifies *
+//@   assert[only_odd_stream_ids_get_past_the_parity_check] at "st := sc.streams[f.Header().StreamID]" :: id % 2 == 1
+//@   assert[a_new_stream_has_an_odd_id] at "sc.streams[id] = st" :: id % 2 == 1
+//@   assert[a_new_stream_has_an_id_above_every_earlier_one] at "sc.streams[id] = st" :: id > old(sc.maxStreamID) && sc.maxStreamID == id
+//@   assert[a_new_stream_id_is_not_in_use] at "sc.streams[id] = st" :: !has(sc.streams, id)
+//@   assert[a_request_is_only_started_within_the_advertised_concurrency_limit] at "sc.newWriterAndRequest(st, f)" :: sc.curOpenStreams <= sc.advMaxStreams
+//@   ensures[the_highest_stream_id_never_decreases] sc.maxStreamID >= old(sc.maxStreamID)
